@@ -14,7 +14,7 @@ NAME = "imusim"
 SIM_UNIT = "IMU frames"
 BUDGET = {"quick": {"runs": 1600, "wall": 80}, "thorough": {"runs": 60000, "wall": 1200}}
 SHRINK_LISTS = ("ops",)
-PROBES = {"C16": ["chunk-of-one", "all-singletons", "F-not-pow2-minus-1", "rank-FH", "rank-H", "known-rot",
+PROBES = {"C16": ["explicit-init-state", "reset=True-repeat", "chunk-of-one", "all-singletons", "F-not-pow2-minus-1", "rank-FH", "rank-H", "known-rot",
                   "integrated-rot+gravity", "zero-gravity", "float32", "batch>1", "nonidentity-init"]}
 
 # tolerance constants: calibrated on the repaired tree, worst observed ratio noted in DESIGN.md
@@ -33,7 +33,7 @@ def generate(seed, tier, prop="C16"):
            "dt_mode": r.choice(["const", "rand", "rand"]), "dt": rng.loguniform(r, 1e-4, 1.0),
            "gyro_scale": r.choice([0.0, 0.05, 0.5, 3.0]), "acc_scale": r.choice([0.0, 1.0, 10.0]),
            "known_rot": r.random() < 0.35, "gravity": r.choice([9.81007, 9.81007, 0.0, 1.62]),
-           "init": r.random() < 0.6, "init_batched": r.random() < 0.4}
+           "init": r.random() < 0.6, "init_batched": r.random() < 0.4, "explicit": r.random() < 0.4}
     ro = rng.stream(seed, "ops")
     style = ro.choice(["few", "few", "many", "singletons", "head1", "tail1"])
     cuts = set()
@@ -275,6 +275,34 @@ def execute(plan, prop, out, tr):
                                 "%.3e)" % (key, err, len(chunks), cuts[:10], tol), 0, "chunk:" + key)
         out.sigs.add("F%d|c%d|one%s" % (min(F, 64), min(len(chunks), 8), any(b - a == 1 for a, b in chunks)))
         out.nontrivial = True
+    # --- (ii-b) a reset=True integrator driven with the explicit init_state of the previous chunk's last frame,
+    #     and called twice on the first chunk (a reset=True integrator carries nothing between calls)
+    if len(chunks) > 1 and c.get("explicit"):
+        m5 = pp.module.IMUPreintegrator(pos=p0.clone(), rot=r0.clone(), vel=v0.clone(), gravity=c["gravity"], reset=True)
+        m5 = m5.double() if dtype == torch.float64 else m5
+        lo, hi = chunks[0]
+        first = _guard(lambda: feed(m5, lo, hi, "BFH"), "reset=True call", lo, "raises:explicit")
+        again = _guard(lambda: feed(m5, lo, hi, "BFH"), "reset=True call repeated", lo, "raises:explicit")
+        for key in ("rot", "vel", "pos"):
+            a_, b_ = first[key], again[key]
+            a_ = a_.tensor() if key == "rot" else a_; b_ = b_.tensor() if key == "rot" else b_
+            if not torch.equal(a_, b_):
+                raise Violation("C16.chunk", "a reset=True integrator returned different '%s' for the same call made twice" % key,
+                                lo, "reset-true:" + key)
+        out.probe("reset=True-repeat")
+        state = {k_: (first[k_][..., -1:, :]) for k_ in ("pos", "rot", "vel")}
+        compare("explicit#0", first, lo, lo, hi)
+        for ci, (lo, hi) in enumerate(chunks[1:], 1):
+            kw = {"init_state": dict(state)}
+            if rot_known is not None:
+                kw["rot"] = rot_known[:, lo:hi]
+            res = _guard(lambda: m5(dt[:, lo:hi], gyro[:, lo:hi], acc[:, lo:hi], **kw),
+                         "chunk %d with explicit init_state" % ci, lo, "raises:explicit")
+            compare("explicit#%d" % ci, res, lo, lo, hi)
+            state = {k_: (res[k_][..., -1:, :]) for k_ in ("pos", "rot", "vel")}
+            out.ops += 1
+        out.probe("explicit-init-state")
+        out.sigs.add("F%d|explicit|c%d" % (min(F, 64), min(len(chunks), 8)))
     # --- (iii) ranks
     if B == 1:
         m3 = mk()
